@@ -15,6 +15,9 @@ Protocol (state: the current annotated sequence `cur`, optionally a copy `cp`):
   copy                                   cp = cur.copy()               -> ok True|False   (cp == cur)
   cp_setint p c | cp_addfeat <feature> | cp_setf <feature> <letters>   mutate the copy
   keepf <feature> | kept                 r = cur[feature] is kept by the caller; `kept` prints r again (after later writes)
+  mkloc first last | mkfeat0             Location(first, last) / Feature(key, []) : ok | ERR:ValueError
+  setslice a|- b|- letters | setint p c  cur[a:b] = letters / cur[p] = c
+  addfeat f | iadd annot | delfeat f | has f | count | range      in-place edits / queries of cur.annotation
   mut_qual v | cp_mut_qual v             edit the dict handed out by feature.qual of every feature of cur / cp (no effect)
   mut_features | cp_mut_features         clear annotation.get_features() and try to clear feature.locs (no effect)
 """
@@ -37,8 +40,7 @@ RULE = ("seeded annotated sequences (1-4 features x 1-4 locations, both strands,
         "single/double-location enumeration over sequences of length <= 6.")
 TRUSTED = ["numpy basic slicing / slice assignment (incl. length-1 broadcast) and Python's stable sorted() modelled by their documented semantics",
            "set/frozenset iteration order is unobservable: the canonical form sorts and de-duplicates"]
-ASSUMPTIONS = ["positions lie within +-(2**63-1) (sys.maxsize stands for an open bound in Annotation.__getitem__)",
-               "reading/writing through a feature with two different locations sharing first or last is not modelled (order depends on set iteration)",
+ASSUMPTIONS = ["writing through a feature with two different locations on the same span is not modelled (which chunk survives depends on set iteration)",
                "sequence symbols are NucleotideSequence codes; feature key and qualifiers are opaque tokens"]
 LEVEL_TEXT = ("Lean proofs for all inputs: slice coverage/defects/pairing for all four slice forms, feature read (biological order), "
               "feature write-then-read, reverse-complement involution, copy equal+independent on a heap model tied to the "
@@ -282,8 +284,10 @@ def _parse_annot(s):
 
 
 def _has_ties(locs):
+    """Two different locations spanning the same bases: the only case in which the order of a WRITE through the
+    feature still depends on set iteration (reads are unaffected: both chunks are the same bases)."""
     ls = list(dict.fromkeys(locs))
-    return any((a[0] == b[0] or a[1] == b[1]) for i, a in enumerate(ls) for b in ls[i + 1:])
+    return any(a[0] == b[0] and a[1] == b[1] for i, a in enumerate(ls) for b in ls[i + 1:])
 
 
 # ---------------------------------------------------------------- implementation adapter
@@ -475,13 +479,9 @@ class World:
                 return "ok " + str(self.cur[self.I(int(w[1]), True)])
             if w[0] == "getf":
                 f = _parse_feat(w[1])
-                if _has_ties(f[2]):
-                    return "unmodelled"
                 return "ok " + _canon_seq(self.cur[self.feat(f)])
             if w[0] == "keepf":
                 f = _parse_feat(w[1])
-                if _has_ties(f[2]):
-                    return "unmodelled"
                 self.kept = self.cur[self.feat(f)]          # the caller keeps the result …
                 return "ok " + _canon_seq(self.kept)
             if w[0] == "kept":
@@ -532,6 +532,14 @@ class World:
                 return "ok"
             if w[0] == "cp_addfeat":
                 self.cp.annotation.add_feature(self.feat(_parse_feat(w[1])))
+                return "ok"
+            if w[0] == "mkloc":
+                from biotite.sequence import Location
+                Location(self.I(int(w[1])), self.I(int(w[2])))
+                return "ok"
+            if w[0] == "mkfeat0":
+                from biotite.sequence import Feature
+                Feature("k0", (list, tuple, set, frozenset)[self.spell % 4]())
                 return "ok"
             if w[0] == "addfeat":
                 ann = self.cur.annotation
@@ -594,13 +602,17 @@ def _clip_expected(annot, lo, hi):
     for k, q, locs in annot:
         new = set()
         for f, l, st, d in locs:
-            bases = [p for p in range(f, l + 1) if (lo is None or p >= lo) and (hi is None or p < hi)]
+            if l - f > 100000:          # too long to enumerate: the same statement on the interval
+                b0, b1 = (f if lo is None else max(f, lo)), (l if hi is None else min(l, hi - 1))
+                bases = [b0, b1] if b0 <= b1 else []
+            else:
+                bases = [p for p in range(f, l + 1) if (lo is None or p >= lo) and (hi is None or p < hi)]
             if not bases:
                 continue
             nd = d
-            if any(p < bases[0] for p in range(f, l + 1)):
+            if f < bases[0]:            # a base of the location lies left of the first kept one
                 nd |= MISS_LEFT
-            if any(p > bases[-1] for p in range(f, l + 1)):
+            if l > bases[-1]:
                 nd |= MISS_RIGHT
             new.add((bases[0], bases[-1], st, nd))
         if new:
@@ -917,42 +929,47 @@ def oracle(case):
         end = start + n
         if t[0] == "aslice":
             a, b = (None if x == "-" else int(x) for x in t[1:3])
-            if a is not None and b is not None and a > b:
-                w.step(op)
-                continue
-            exp = _clip_expected(annot, a, b)
+            exp = _clip_expected(annot, a, b)          # a > b: no base lies inside, the result is empty
             try:
                 got = _annot_t(w.cur.annotation[a:b])
             except Exception as e:  # noqa: BLE001
-                key = "C13/aslice/empty-slice-raises" if a is not None and a == b else "C13/aslice/raises"
+                key = "C13/aslice/empty-slice-raises" if a is not None and b is not None and a >= b else "C13/aslice/raises"
                 v.append((key, f"annotation[{_o(a)}:{_o(b)}] of {_annot_s(annot)} raised {type(e).__name__}: {e}"))
                 continue
             if got != exp:
-                v.append(("C13/aslice/" + ("coverage" if _coverage(got) != _coverage(exp) else "defect-flags"),
-                          f"annotation[{_o(a)}:{_o(b)}] of {_annot_s(annot)}: " + _explain(got, exp)))
+                huge = any(abs(x) >= 2 ** 63 - 1 for _, _, ls in annot for f, l, _, _ in ls for x in (f, l))
+                v.append(("C13/aslice/open-bound-sentinel" if huge and (a is None or b is None) else
+                          "C13/aslice/" + ("coverage" if _coverage(got) != _coverage(exp) else "defect-flags"),
+                          f"annotation[{_o(a)}:{_o(b)}] of {_annot_s(annot)}: " +
+                          (f"got {sorted(map(str, got))}, expected {sorted(map(str, exp))}" if huge else _explain(got, exp))))
             else:
                 v += _eq_builtin(w.cur.annotation[a:b], exp, f"annotation[{_o(a)}:{_o(b)}]")
         elif t[0] == "slice":
             a, b = (None if x == "-" else int(x) for x in t[1:3])
             lo = start if a is None else a
             hi = end if b is None else b
-            if not (start <= lo <= hi <= end):
-                w.step(op)          # outside the sequence: the property says nothing
-                continue
             form = ("a" if a is not None else "") + ":" + ("b" if b is not None else "")
+            if lo < start or hi < start:
+                # documented: "the index must be in range of the sequence … Negative indices do not mean indexing from
+                # the end": a bound left of the sequence start must be refused, never wrapped around
+                got = w.step(op)
+                if got != "ERR:IndexError":
+                    v.append((f"C13/slice[{form}]/left-of-start-not-refused", f"aseq[{_o(a)}:{_o(b)}] with start {start}, {n} bases: {got}, expected IndexError"))
+                continue
             try:
                 r = w.cur[a:b]
                 got_seq, got_start, got_annot = str(r.sequence), int(r.sequence_start), _annot_t(r.annotation)
             except Exception as e:  # noqa: BLE001
-                key = "C13/slice/empty-slice-raises" if lo == hi else f"C13/slice[{form}]/raises"
+                key = "C13/slice/empty-slice-raises" if lo >= hi else f"C13/slice[{form}]/raises"
                 v.append((key, f"aseq[{_o(a)}:{_o(b)}] (start {start}, {n} bases, {_annot_s(annot)}) raised {type(e).__name__}: {e}"))
                 continue
-            if got_seq != letters[lo - start:hi - start] or got_start != lo:
+            if got_seq != letters[lo - start:max(hi - start, 0)] or got_start != lo:
                 v.append((f"C13/slice[{form}]/sequence-pairing",
                           f"aseq[{_o(a)}:{_o(b)}] start {start} seq {letters}: got start {got_start} seq {got_seq!r}, "
                           f"expected start {lo} seq {letters[lo - start:hi - start]!r}"))
             # an open bound removes nothing on that side; locations reaching beyond the end of the sequence may
             # either be kept or be cut at the end of the sequence by an open stop (both satisfy the statement)
+            # (a stop beyond the end keeps what overhanging locations cover up to the stop; lo > hi keeps nothing)
             exps = [_clip_expected(annot, a, hi)] + ([_clip_expected(annot, a, None)] if b is None else [])
             if got_annot in exps:
                 v += _eq_builtin(r.annotation, got_annot, f"aseq[{_o(a)}:{_o(b)}]")
@@ -961,10 +978,12 @@ def oracle(case):
                 v.append((key, f"aseq[{_o(a)}:{_o(b)}] (start {start}, {n} bases) of {_annot_s(annot)}: " + _explain(got_annot, exps[0])))
         elif t[0] == "int":
             p = int(t[1])
+            got = w.step(op)
             if start <= p < end:
-                got = w.step(op)
                 if got != "ok " + letters[p - start]:
                     v.append(("C13/int/value", f"aseq[{p}] start {start} seq {letters}: {got}"))
+            elif got != "ERR:IndexError":
+                v.append(("C13/int/out-of-range-not-refused", f"aseq[{p}] with start {start}, {n} bases: {got}, expected IndexError"))
         elif t[0] == "kept":
             got = w.step(op)
             if kept_exp is not None and got != "ok " + (kept_exp or "_"):
@@ -979,21 +998,38 @@ def oracle(case):
             strands = {l[2] for l in locs}
             in_range = all(start <= f and l < end for f, l, _, _ in locs)
             disjoint = all(a[1] < b[0] or b[1] < a[0] for i, a in enumerate(locs) for b in locs[i + 1:])
-            if len(strands) != 1 or not in_range or _has_ties(locs):
-                if t[0] == "setf" or keep:      # keep the picture in sync with whatever happened
-                    w.step(op)
-                    letters = str(w.cur.sequence)
+            left = any(f < start for f, l, _, _ in locs)
+            if t[0] == "getf" and len(strands) != 1:
+                got = w.step(op)            # documented refusal: all locations must be on one strand
+                if got != "ERR:ValueError":
+                    v.append(("C13/getf/mixed-strands-not-refused", f"aseq[{t[1]}]: {got}, expected ValueError"))
+                continue
+            if left and (t[0] == "getf" or len(strands) == 1):
+                before = _deep(w.cur)
+                got = w.step(op)            # a location starting left of the sequence start: refused, nothing written
+                if got != "ERR:IndexError" or _deep(w.cur) != before:
+                    v.append((f"C13/{t[0]}/left-of-start-not-refused", f"{op} with start {start}, {n} bases: {got}, expected IndexError and an untouched sequence"))
+                letters = str(w.cur.sequence)
+                continue
+            if len(strands) != 1 or (t[0] == "setf" and (not in_range or _has_ties(locs))):
+                w.step(op)                  # write with mixed strands / beyond the end / two locations on the same span:
+                letters = str(w.cur.sequence)   # numpy clipping and write order are modelled (correspondence), the property is silent
                 continue
             fwd = strands == {"+"}
-            order = sorted(locs, key=lambda l: l[0]) if fwd else sorted(locs, key=lambda l: -l[1])
+            # biological order; equal first (forward) / last (reverse) are ordered by the other end, so that the result does
+            # not depend on the iteration order of the location set
+            order = sorted(locs, key=lambda l: (l[0], l[1])) if fwd else sorted(locs, key=lambda l: (-l[1], -l[0]))
             if t[0] == "getf":
+                # Python string slicing clips at the end exactly like the sequence does for a location reaching beyond it
                 exp = "".join(letters[f - start:l - start + 1] if fwd else _revcomp_str(letters[f - start:l - start + 1])
                               for f, l, _, _ in order)
                 got = w.step(op)
                 if keep:
                     kept_exp = exp
+                tie = any(a[0] == b[0] or a[1] == b[1] for i, a in enumerate(locs) for b in locs[i + 1:])
                 if got != "ok " + (exp or "_"):
-                    v.append(("C13/getf/" + ("forward" if fwd else "reverse") + ("/multi-location" if len(locs) > 1 else ""),
+                    v.append(("C13/getf/" + ("forward" if fwd else "reverse") + ("/multi-location" if len(locs) > 1 else "") +
+                              ("/tie-order-depends-on-set-iteration" if tie and sorted(got[3:]) == sorted(exp) else ""),
                               f"aseq[{t[1]}] start {start} seq {letters}: {got}, expected {exp}"))
                 else:
                     v += _result_independent(w, t[1], exp, "forward" if fwd else "reverse", len(locs))
@@ -1064,7 +1100,21 @@ def oracle(case):
                 lo, hi = (start if a is None else a), (end if b is None else b)
                 x = "" if t[3] == "_" else t[3]
                 valid = start <= lo <= hi <= end and len(x) == hi - lo
+            before = _deep(w.cur)
             got = w.step(op)
+            if t[0] == "setint" and not valid:
+                if got != "ERR:IndexError" or _deep(w.cur) != before:
+                    v.append(("C13/setint/out-of-range-not-refused", f"{op} with start {start}, {n} bases: {got}, sequence now {w.cur.sequence}"))
+            elif t[0] == "setslice" and (lo < start or hi < start):
+                if got != "ERR:IndexError" or _deep(w.cur) != before:
+                    v.append(("C13/setslice/left-of-start-not-refused", f"{op} with start {start}, {n} bases: {got}, sequence now {w.cur.sequence}"))
+            elif t[0] == "setslice" and start <= lo <= hi <= end and len(x) not in (hi - lo, 1):
+                if got != "ERR:ValueError" or _deep(w.cur) != before:
+                    v.append(("C13/setslice/wrong-length-not-refused", f"{op} (window of {hi - lo} bases): {got}, sequence now {w.cur.sequence}"))
+            elif t[0] == "setslice" and start <= lo <= hi <= end and len(x) == 1 and hi - lo != 1:
+                new = letters[:lo - start] + x * (hi - lo) + letters[hi - start:]       # one symbol fills the window (numpy broadcast)
+                if got != "ok" or str(w.cur.sequence) != new:
+                    v.append(("C13/setslice/fill", f"{op} on {letters}: {got}, sequence now {w.cur.sequence}, expected {new}"))
             if valid:
                 new = letters[:lo - start] + x + letters[hi - start:]
                 if got != "ok" or str(w.cur.sequence) != new:
@@ -1074,6 +1124,15 @@ def oracle(case):
                 if _annot_t(w.cur.annotation) != _annot_fs(annot) or int(w.cur.sequence_start) != start:
                     v.append((f"C13/{t[0]}/annotation-or-start-changed", f"{op}"))
             letters = str(w.cur.sequence)
+        elif t[0] == "mkloc":
+            got = w.step(op)
+            exp = "ERR:ValueError" if int(t[1]) > int(t[2]) else "ok"
+            if got != exp:
+                v.append(("C13/construct/location-first-after-last", f"Location({t[1]}, {t[2]}): {got}, expected {exp}"))
+        elif t[0] == "mkfeat0":
+            got = w.step(op)
+            if got != "ERR:ValueError":
+                v.append(("C13/construct/feature-without-locations", f"Feature(key, []): {got}, expected ValueError"))
         elif t[0] == "revcomp":
             k = 1 if t[1] == "-" else int(t[1])
             before = _canon_aseq(w.cur)
@@ -1256,8 +1315,17 @@ def _gen_feature(rng):
     ost = rng.choice("+-")
     l1 = _rand_loc(rng, start, start + n - 1, ost, 0)
     l2 = _rand_loc(rng, start, start + n - 1, ost, 1)
-    if not _has_ties([l1, l2]):
+    if l1 != l2:
         ops.append(f"getf {_feat_s((0, 0, [l1, l2]))}")
+    # equal first (forward) / equal last (reverse): ordered by the other end, whatever the set iteration order
+    a0 = rng.randint(start, start + n - 2)
+    tie = [(a0, rng.randint(a0, start + n - 1), "+", d) for d in rng.sample(range(64), 3)]
+    if len({l[1] for l in tie}) > 1:
+        ops.append(f"getf {_feat_s((1, 0, list(dict.fromkeys(tie))))}")
+    b0 = rng.randint(start + 1, start + n - 1)
+    tie = [(rng.randint(start, b0), b0, "-", d) for d in rng.sample(range(64), 3)]
+    if len({l[0] for l in tie}) > 1:
+        ops.append(f"getf {_feat_s((1, 0, list(dict.fromkeys(tie))))}")
     ops.append("show")
     return _case("feature", start, letters, annot, ops)
 
@@ -1355,6 +1423,44 @@ def _gen_history(rng):
     return _case("history", start0, letters, annot0, ops)
 
 
+def _gen_refusals(rng):
+    """The regions the theorems exclude by hypothesis, one by one: what the code must refuse (bounds and locations left
+    of the sequence start, positions outside the sequence, both strands in one read, a value of the wrong width,
+    Location(first > last), Feature without locations) and what it accepts beyond the comfortable range (stop beyond the
+    end, reversed and empty slices, a location reaching beyond the end, one symbol filling a window)."""
+    start = rng.choice([1, 2, 5, rng.randint(1, 50)])
+    n = rng.choice([1, 3, 6, 10])
+    letters = _rand_seq(rng, n)
+    end = start + n
+    alpha = "ACGT" if set(letters) <= set("ACGT") else LETTERS
+    annot = _rand_annot(rng, start - 3, end + 3, nf=rng.randint(1, 3))
+    below = start - rng.randint(1, n + 2)
+    inside = rng.randint(start, end)
+    word = lambda k: "".join(rng.choice(alpha) for _ in range(k)) or "_"
+    menu = [
+        f"slice {below} {inside}", f"slice {below} -", f"slice - {below}", f"slice {inside} {below}", f"slice {below} {below - 1}",
+        f"slice {inside} {end + rng.randint(1, 4)}", f"slice - {end + rng.randint(1, 4)}", f"slice {end} {end + 2}",
+        f"slice {end + 1} -", f"slice {inside} {rng.randint(start, inside)}",
+        f"aslice {inside} {inside - rng.randint(1, 5)}", f"aslice {end + 2} {start - 2}",
+        f"int {below}", f"int {start - 1}", f"int {start - n}", f"int {start - n - 1}", f"int {end}", f"int {end + 2}", f"int {start}", f"int {end - 1}",
+        f"setint {start - 1} {rng.choice(alpha)}", f"setint {start - n} {rng.choice(alpha)}", f"setint {end} {rng.choice(alpha)}", f"setint {end - 1} {rng.choice(alpha)}",
+        f"setslice {below} {inside} {word(inside - below)}", f"setslice - {below} {word(1)}", f"setslice {below} - {word(1)}",
+        f"setslice {start} {end} {word(n + 1)}", f"setslice {start} {end} {word(max(0, n - 1)) if n != 2 else word(3)}", f"setslice {start} {end} {word(1)}",
+        f"setslice {inside} {inside} _", f"setslice {inside} {end + 2} {word(end - inside)}", f"setslice - - {word(n)}",
+        f"mkloc {inside} {inside - 1}", f"mkloc {inside} {inside}", f"mkloc {below} {inside}", f"mkloc {inside} {below}", "mkfeat0",
+        f"getf {_feat_s((0, 0, [(start, start, '+', 0), (end - 1, end - 1, '-', 0)]))}",
+        f"getf {_feat_s((0, 0, [(start - 1, start, '+', 0)]))}", f"getf {_feat_s((0, 0, [(below, below, '-', 1), (start, end - 1, '-', 0)]))}",
+        f"getf {_feat_s((0, 0, [(end - 1, end + 2, '+', 0)]))}", f"getf {_feat_s((0, 0, [(end - 1, end + 1, '-', 3), (start, start, '-', 0)]))}",
+        f"getf {_feat_s((0, 0, [(end + 1, end + 3, '+', 0)]))}",
+        f"setf {_feat_s((0, 0, [(start - 1, start, '+', 0)]))} {word(2)}", f"setf {_feat_s((0, 0, [(start, start, '+', 0), (below, below, '+', 0)]))} {word(2)}",
+        f"setf {_feat_s((0, 0, [(end - 1, end, '+', 0)]))} {word(2)}",
+    ]
+    ops = []
+    for o in rng.sample(menu, 9):
+        ops += [o, rng.choice(["show", f"slice {start} {end}", f"int {start}", "count"])]
+    return _case("refusals", start, letters, annot, ops)
+
+
 def _gen_malformed(rng):
     """Outside the theorem hypotheses: slices leaving the sequence or reversed, features outside the sequence,
     mixed strands, wrong-length values.  Only the correspondence (and 'never an unexpected exception class') applies."""
@@ -1408,10 +1514,10 @@ def _exhaustive(max_len):
 def cases(rng, tier):
     quick = tier == "quick"
     plan = [("aslice", 260), ("slice", 300), ("slice-overhang", 120), ("feature", 260), ("revcomp", 120), ("copy", 100), ("malformed", 140),
-            ("history", 200)]
+            ("history", 200), ("refusals", 150)]
     mult = 2 if quick else 40
     gens = {"aslice": _gen_aslice, "slice": _gen_slice, "slice-overhang": lambda r: _gen_slice(r, overhang=True), "feature": _gen_feature,
-            "revcomp": _gen_revcomp, "copy": _gen_copy, "malformed": _gen_malformed, "history": _gen_history}
+            "revcomp": _gen_revcomp, "copy": _gen_copy, "malformed": _gen_malformed, "history": _gen_history, "refusals": _gen_refusals}
     for kind, cnt in plan:
         for _ in range(cnt * mult):
             c = gens[kind](rng)
@@ -1439,6 +1545,13 @@ def corpus():
         # empty slice inside a location
         _case("aslice", 1, "ACGT", [(0, 0, [(1, 10, "+", 0)])], ["aslice 3 3", "aslice 1 1", "aslice 11 11", "aslice 3 4"]),
         _case("slice", 1, "ACGTAC", [(0, 0, [(1, 6, "-", 0)])], ["slice 3 3", "slice 1 1", "slice 7 7"]),
+        # positions left of the sequence start used to wrap around to the end of the sequence
+        _case("refusals", 5, "ACGTACGTAC", [(0, 0, [(5, 8, "+", 0)])],
+              ["int 4", "int 0", "slice - 3", "slice 6 3", "setint 4 T", "show", "setslice 3 14 T", "show", "getf 0/0/3:6:+:0", "setf 0/0/4:5:+:0 TT", "show"]),
+        # equal first / equal last: ordered by the other end, not by set iteration
+        _case("feature", 1, "ACGTACGTAC", [], ["getf 0/0/2:3:+:0,2:6:+:1,2:9:+:2,2:4:+:3", "getf 0/0/2:9:-:0,5:9:-:1,7:9:-:2,3:9:-:4"]),
+        # open bound with a position beyond -sys.maxsize (known finding: the sentinel cuts the location)
+        _case("aslice", 1, "ACGT", [(0, 0, [(-9223372036854775812, 3, "+", 0)])], ["aslice - 10", "aslice -9223372036854775812 10"]),
         # the upstream unit test's data
         _case("slice", 1, "ATGGCGTACGATTAGAAAAAAA", [(0, 0, [(1, 2, "+", 0), (11, 12, "+", 0)]), (0, 1, [(16, 22, "+", 0)])],
               ["int 2", "slice - 16", "slice 16 -", "slice 1 17", "getf 0/0/1:2:+:0,11:12:+:0", "getf 1/1/1:4:-:0,8:12:-:0"]),
